@@ -917,4 +917,25 @@ theorem retAfter_stable (cfg : Config) (hg : cfg.returnVarsGuard = true) (c : Cf
   simp only [retAfter, setExt, setRet, hg, Bool.true_and]
   split <;> simp_all
 
+/-! ## sessions in which the program text changes between operations -/
+
+/-- the session system over *versions*: the version of an operation is the pool (the text of the file as it
+    is when the operation is issued); the state carries nothing of a version but what `State` has -/
+def vsys (cfg : Config) (lt : Nat → Nat → Bool) :
+    VSys Pool Op State Nat (Except Err Unit × Except Err (List OutEntry)) where
+  init := State.init
+  step := fun P o s => step cfg lt P o s
+  observe := fun P s d => observe cfg lt P s d
+
+theorem vexec_clean (cfg : Config) (hc : cfg.nestedRecBindsInFrame = false)
+    (ht : cfg.tracingRestored = true) (lt : Nat → Nat → Bool) (h : List (Pool × Op)) (s : State) :
+    ((vsys cfg lt).exec h s).leaks = s.leaks ∧ ((vsys cfg lt).exec h s).tracing = s.tracing := by
+  induction h generalizing s with
+  | nil => exact ⟨rfl, rfl⟩
+  | cons po os ih =>
+    obtain ⟨P, o⟩ := po
+    have h1 := step_clean cfg hc ht lt P o s
+    have h2 := ih (step cfg lt P o s)
+    exact ⟨h2.1.trans h1.1, h2.2.trans h1.2⟩
+
 end GuppyVerif.Session
